@@ -26,12 +26,20 @@ type c06Case struct {
 }
 
 func c06v4(rec *obs.Rec, b []byte) *obs.Fail {
-	m1, err := dhcpv4.FromBytes(append([]byte{}, b...))
+	rx := append([]byte{}, b...)
+	m1, err := dhcpv4.FromBytes(rx)
 	if err != nil {
 		rec.Class("v4 rejected")
 		return nil
 	}
 	b1 := m1.ToBytes()
+	// "storing a received packet": the receive buffer is reused for the next datagram before the stored packet is sent on
+	for i := range rx {
+		rx[i] = ^rx[i]
+	}
+	if later := m1.ToBytes(); !bytes.Equal(later, b1) {
+		return obs.Failf("C06/v4/stored-packet-changed", "a stored packet encodes the same after its receive buffer was reused", "differs at byte %d", firstDiff(later, b1))
+	}
 	m2, err := dhcpv4.FromBytes(append([]byte{}, b1...))
 	if err != nil {
 		return obs.Failf("C06/v4/reencoded-rejected", "re-encoded packet decodes", "error %v", err)
@@ -78,12 +86,20 @@ func c06v4(rec *obs.Rec, b []byte) *obs.Fail {
 
 func c06v6(rec *obs.Rec, b []byte) *obs.Fail {
 	cov := v6Cov()
-	m1, err := dhcpv6.FromBytes(append([]byte{}, b...))
+	rx := append([]byte{}, b...)
+	m1, err := dhcpv6.FromBytes(rx)
 	if err != nil {
 		rec.Class("v6 rejected")
 		return nil
 	}
 	b1 := m1.ToBytes()
+	// "storing a received packet": the receive buffer is reused for the next datagram before the stored message is sent on
+	for i := range rx {
+		rx[i] = ^rx[i]
+	}
+	if later := m1.ToBytes(); !bytes.Equal(later, b1) {
+		return obs.Failf("C06/v6/stored-message-changed", "a stored message encodes the same after its receive buffer was reused", "differs at byte %d", firstDiff(later, b1))
+	}
 	m2, err := dhcpv6.FromBytes(append([]byte{}, b1...))
 	if err != nil {
 		return obs.Failf("C06/v6/reencoded-rejected", "re-encoded message decodes", "error %v (re-encoding %x)", err, clipb(b1))
